@@ -514,10 +514,10 @@ def run(tier, replay=None):
     imap.update(im2); crash_scan += cr2
     for c in hazard:
         amap.setdefault(c.split(" ", 1)[0], c.split(" ", 1)[0] + " OK ast=-")
-    model = []
+    mmap = {}
     if lres.get("driver_ok"):
-        model, _, _ = core.run_parallel([core.driver_path(), "re"], cases)
-    mmap = {l.split(" ", 1)[0]: l for l in model}
+        mmap, _ = rc.run_robust(core, [core.driver_path(), "re"], cases, chunk_timeout=300, single_timeout=30)
+    model = [mmap[c.split(" ", 1)[0]] for c in cases if c.split(" ", 1)[0] in mmap]
     kf = {f["id"]: f for f in core.known_findings("C03")}
     nviol = 0
     hist = {"string_cases": 0, "matches_cases": 0, "limit_skipped": {}, "with_matches": 0, "spec_offsets": 0, "reported": 0, "ast_tie_ok": 0, "mods": {}, "greedy": 0, "lazy": 0,
@@ -636,7 +636,7 @@ def run(tier, replay=None):
     for sig, ids in known_hits.items():
         chk.known(kf.get(sig), "%s: %s (%d cases, e.g. %s)" % (sig, kf[sig]["text"][:150], len(ids), ids[0]))
     from vf.checks import c02
-    fxres = c02.check_fx(chk, b, cases, amap, lres, replay)
+    fxres = c02.check_fx(chk, b, cases, amap, lres, replay, found)
     found = found or fxres.get("found", False)
 
     def excuse(line, kind, err):
@@ -645,7 +645,7 @@ def run(tier, replay=None):
             return ("C03-continue-killed-fiber" in kf and "yr_re_exec: Assertion" in err and killed_fiber_sig(toks.get("re", ""))) or \
                    ("C03-zero-width-loop-hang" in kf and zero_width_loop(toks.get("re", "")))
         return "C03-nullable-repeat" in kf and nullable_repeat(toks.get("re", ""))
-    wres, wfound = rc.check_wfx(core, chk, b, [c for c in cases if c.split(" ", 1)[0] not in hz], excuse) if lres.get("driver_ok") else ({}, False)
+    wres, wfound = rc.check_wfx(core, chk, b, [c for c in cases if c.split(" ", 1)[0] not in hz], excuse, found_so_far=found) if lres.get("driver_ok") else ({}, False)
     found = found or wfound
     chk.cov.update({
         "evaluations": len(cases), "distinct_nontrivial": len(distinct),
